@@ -190,14 +190,46 @@ def list_lemmas(terms):
                 out.append(VL.is_nil(e) == z3.And(VL.is_nil(a), VL.is_nil(b)))
                 if z3.is_app(a) and a.decl().name() == 'app':
                     out.append(e == app(a.arg(0), app(a.arg(1), b)))
+            elif n == 'keys' or n == 'vals':
+                out.append(length(e) == length(e.arg(0)))
+            elif n == 'nth':
+                l, k = e.arg(0), e.arg(1)
+                if z3.is_app(l) and l.decl().name() == 'keys':
+                    out.append(z3.Implies(z3.And(k >= 0, k < length(l.arg(0))), e == V.fst(nth(l.arg(0), k))))
+                    out.append(length(l.arg(0)) >= 0)
+                elif z3.is_app(l) and l.decl().name() == 'vals':
+                    out.append(z3.Implies(z3.And(k >= 0, k < length(l.arg(0))), e == V.snd(nth(l.arg(0), k))))
+                    out.append(length(l.arg(0)) >= 0)
+                elif z3.is_app(l) and l.decl().name() == 'take':
+                    out.append(z3.Implies(z3.And(k >= 0, k < l.arg(1)), e == nth(l.arg(0), k)))
+                elif z3.is_app(l) and l.decl().name() == 'app':
+                    a, b = l.arg(0), l.arg(1)
+                    out.append(z3.Implies(z3.And(k >= 0, k < length(a)), e == nth(a, k)))
+                    out.append(z3.Implies(k >= length(a), e == nth(b, k - length(a))))
+                    out.append(length(a) >= 0)
+            elif n == 'lookup':
+                l, k = e.arg(0), e.arg(1)
+                if z3.is_app(l) and l.decl().name() == 'assoc_set':
+                    out.append(z3.If(l.arg(1) == k, e == l.arg(2), e == lookup(l.arg(0), k)))
             elif n == 'take':
+                l0 = e.arg(0)
+                if z3.is_app(l0) and l0.decl().name() == 'take':
+                    out.append(z3.Implies(e.arg(1) <= l0.arg(1), e == take(l0.arg(0), e.arg(1))))
+                if z3.is_app(l0) and l0.decl().name() == 'app':
+                    out.append(z3.Implies(e.arg(1) == length(l0.arg(0)), e == l0.arg(0)))
+                    out.append(length(l0.arg(0)) >= 0)
                 out.append(z3.Implies(z3.And(e.arg(1) >= 0, e.arg(1) <= length(e.arg(0))), length(e) == e.arg(1)))
                 out.append(z3.Implies(e.arg(1) >= length(e.arg(0)), e == e.arg(0)))
                 out.append(length(e.arg(0)) >= 0)
+            for hook in LEMMA_HOOKS:
+                out += hook(e, n)
             stack.extend(e.children())
         elif z3.is_quantifier(e):
             stack.append(e.body())
     return out
+
+
+LEMMA_HOOKS = []      # functions (term, head name) -> ground instances of lemmas proved by induction elsewhere
 
 
 def collect_apps(exprs, names):
